@@ -172,6 +172,9 @@ func (r *conc14Runner) stressTxPool(seed int64, nw, nops int, addsOnly bool) {
 			case x < 92:
 				cache.ForEachTransaction(func(h []byte, v *txcache.WrappedTransaction) {})
 				_ = cache.Keys()
+			case x < 94 && i%7 == 0:
+				// Clear in the middle of everything else (also while an eviction is between its snapshot and its passes)
+				cache.Clear()
 			default:
 				_ = cache.GetTransactionsPoolForSender(string(senders[rng.Intn(len(senders))]))
 				_ = cache.NumBytes()
